@@ -8,6 +8,8 @@
 -/
 import TdVerif.Model.C01Coherence
 import TdVerif.Lemmas.C01
+import TdVerif.Model.C01Lazy
+import TdVerif.Lemmas.C01Lazy
 
 namespace TdVerif.Props.C01
 open TdVerif TdVerif.C01
@@ -265,6 +267,51 @@ theorem shrink_via_child_out_of_scope :
     · intro k c hm; simp at hm; obtain ⟨_, rfl⟩ := hm; exact Coherent.node _ _ _ _ (by simp) (by simp) (by simp)
   · rw [hev]
     exact not_coherent_of_child _ (.node [3] none none []) "n" (by simp [getPath, kget]) (by simp [M.shape, takeEq])
+
+/-! ## a lazily stacked tensordict as root container (Model/C01Lazy.lean) -/
+
+/-- histories on a lazy stack: the inserted members are themselves coherent tensordicts -/
+def LSafe (L : LZ) : List LOp → Prop
+  | [] => True
+  | op :: ops => (∀ i m, op = .insert i m → Coherent m ∧ (L.members = [] → L.sd ≤ m.shape.length)) ∧ LSafe (lstep L op).1 ops
+
+def lrun (L : LZ) : List LOp → LZ
+  | [] => L
+  | op :: ops => lrun (lstep L op).1 ops
+
+/-- THE PROPERTY on a lazily stacked root: after `set` (string and nested keys, well- or ill-shaped tensors on any device),
+`del_`, `rename_key_`, `names` assignment, `batch_size` assignment (refused), `insert` / `append` of any tensordict — and
+after any finite history of them, accepted or raising, with the partial effects a call that raises in the middle of the
+members leaves behind — every member is a coherent tensordict and all members have the same batch size and device, into
+which the stack dim fits: the entries of the stack have its batch size as leading dims and live on its device. -/
+theorem lazy_root_coherent : ∀ (ops : List LOp) (L : LZ), LCoherent L → LSafe L ops → LCoherent (lrun L ops)
+  | [], _, hc, _ => hc
+  | op :: ops, L, hc, hs => lazy_root_coherent ops (lstep L op).1 (lstep_coherent L op hc hs.1) hs.2
+
+/-- …and whenever the names of a coherent stack can be read there is exactly one per batch dim -/
+theorem lazy_root_names (L : LZ) (hc : LCoherent L) (hne : L.members ≠ []) (ns : DimNames) (h : L.names = .ok ns) :
+    ns.length = L.batchSize.length := by
+  obtain ⟨bs, dv, hgood, hsd⟩ := hc
+  have hsd' := hsd hne
+  rw [lz_batchSize L bs dv hgood hne]
+  unfold LZ.names at h
+  cases hm : L.members with
+  | nil => exact absurd hm hne
+  | cons m r =>
+    rw [hm] at h
+    simp only at h
+    split at h
+    · simp at h; subst h
+      have hmg := hgood m (by rw [hm]; simp)
+      obtain ⟨xbs, xns, xk, rfl⟩ := good_device hmg
+      have hxb : xbs = bs := hmg.2.2.1
+      have hlen : (M.node xbs dv xns xk).namesList.length = bs.length := by
+        simp only [M.namesList]
+        cases xns with
+        | none => simp [hxb]
+        | some l => simp [hmg.1.names_len l rfl, hxb]
+      simp only [insertAt, List.length_append, List.length_cons, List.length_take, List.length_drop, hlen]
+    · simp at h
 
 /-- non-vacuity: a coherent nested tree and an incoherent one -/
 example : Coherent (.node [3] (some 0) (some [some "x"]) [("a", .leaf [3, 2] 0), ("n", .node [3, 2] (some 0) none [])]) := by
